@@ -221,3 +221,14 @@ def nodeStep (ns : Nodes) (toks : List String) : Option (Nodes × String) :=
   | _ => none
 
 end LeanHelix.Driver
+
+namespace LeanHelix.Driver
+/-- the `loops` suite mixes nodes driven through the public API of a running MainLoop (`l…` events)
+with nodes driven at worker level (the `node` protocol) -/
+def mixedStep (st : LNodes × Nodes) (toks : List String) : Option ((LNodes × Nodes) × String) :=
+  match toks with
+  | _ :: ev :: _ =>
+    if ev.startsWith "l" then (loopsStep st.1 toks).map (fun (a, o) => ((a, st.2), o))
+    else (nodeStep st.2 toks).map (fun (b, o) => ((st.1, b), o))
+  | _ => none
+end LeanHelix.Driver
